@@ -15,7 +15,7 @@ use serde_json::{json, Value};
 pub const META: Meta = Meta {
     id: "C15",
     level: "exploration",
-    rule: "Metamorphic pairs: every (entity, request) from the C01-C06 generators (all six request headers, multipart-biased ranges, all entity lengths) is served once with GET and once with HEAD; modification times not in the future (two calls are compared); plus streaming_body built from the same Accept-Encoding / level / chunk-size with GET, HEAD and POST, as Request and as Parts. Oracle: same status, same header multiset (Date excluded; Last-Modified excluded only for future mtimes), HEAD body empty with exact-0 hint for 2xx/3xx/416, no get_range call for HEAD; streaming_body: same headers, no writer for HEAD, body ends cleanly with 0 bytes. Non-trivial = pair whose GET answer was a 206 (single or multipart) or carried a non-empty body; distinct by fingerprint of the case.",
+    rule: "Metamorphic pairs: every (entity, request) from the C01-C06 generators (all six request headers, multipart-biased ranges, all entity lengths; one case in thirteen from C06's multipart family including entities of about 2^64 bytes whose multipart length overflows or nearly does) is served once with GET and once with HEAD; modification times not in the future (two calls are compared); plus streaming_body built from the same Accept-Encoding / level / chunk-size with GET, HEAD and POST, as Request and as Parts. Oracle: same status, same header multiset (Date excluded; Last-Modified excluded only for future mtimes), HEAD body empty with exact-0 hint for 2xx/3xx/416, no get_range call for HEAD; streaming_body: same headers, no writer for HEAD, body ends cleanly with 0 bytes. Non-trivial = pair whose GET answer was a 206 (single or multipart) or carried a non-empty body; distinct by fingerprint of the case.",
     assumptions: &[
         "the two responses are produced within the same run; Date may differ and is excluded",
         "harness entity honours the Entity contract",
@@ -190,9 +190,13 @@ fn serve_strategy() -> BoxedStrategy<Case> {
         max_specs: 4,
         multipart_bias: true,
     };
-    reqgen::stable_case_strategy(reqgen::len_strategy(), p)
-        .prop_map(|(ent, req)| Case { ent, req })
-        .boxed()
+    prop_oneof![
+        12 => reqgen::stable_case_strategy(reqgen::len_strategy(), p).prop_map(|(ent, req)| Case { ent, req }),
+        // C06's multipart family: decimal-width boundaries, many small parts, and entities of about
+        // 2^64 bytes whose exact multipart length does or does not fit (206 or 413, for both methods)
+        1 => crate::props::c06::case_strategy().prop_map(|c| Case { ent: c.ent, req: c.req }),
+    ]
+    .boxed()
 }
 
 pub const AE_SAMPLES: &[&str] = &[
